@@ -176,8 +176,11 @@ Example C14_views_inhabited :
   cds_datetime_us {| cdays := 4382; cms := 1000 |} = -86399000000.
 Proof. exact cds_views_example. Qed.
 
-(* ms_of_today(86399.9995) = 86400000 *)
-Theorem C14_ms_of_today_range_refuted :
-  exists s, fl_normal s /\ 0 < fm s /\ cds_ms_of_today s = 86400000.
-Proof. exact cds_ms_of_today_range_refuted. Qed.
-Print Assumptions C14_ms_of_today_range_refuted.
+(* ms_of_today(float) is always a millisecond of a day *)
+Theorem C14_ms_of_today_range : forall s, 0 <= cds_ms_of_today s < 86400000.
+Proof. exact cds_ms_of_today_range. Qed.
+Print Assumptions C14_ms_of_today_range.
+Example C14_ms_of_today_inhabited :
+  cds_ms_of_today (rne 863999995 10000) = 86399999 /\ cds_ms_of_today (rne 1009995 10000) = 100999 /\
+  cds_ms_of_today (rne (-1) 2) = 86399500.
+Proof. exact cds_ms_of_today_example. Qed.
